@@ -801,12 +801,15 @@ class from_iterable(Source):
         super().__init__(**kwargs)
 
     async def run(self):
-        for x in self._iterable:
-            if self.stopped:
+        iterator = iter(self._iterable)
+        # look at ``stopped`` before taking the next item, so that an item is
+        # never pulled from the iterable just to be dropped
+        while not self.stopped:
+            try:
+                x = next(iterator)
+            except StopIteration:
                 break
             await asyncio.gather(*self._emit(x))
-            if self.stopped:
-                break
         self.stopped = True
 
 
